@@ -59,6 +59,15 @@ Section Melody.
              (pos_dists_Forall ds dpos) es p a Hp Ha Hv).
   Qed.
 
+  Theorem lookback_melody_default_label evs :
+    exists c, lb_mel_default_label mn mx = Some c /\ 0 <= c < mel_num_classes mn mx + zlen ds /\
+              ed_decode (lb_mel mn mx ds bits) c evs = Some MELODY_NO_EVENT.
+  Proof.
+    apply (lookback_default_label Z Z.eqb (mel_num_classes mn mx) (mel_encode mn mx) (mel_dec mn) MELODY_NO_EVENT ds)
+      with (valid := fun e => mel_event_ok mn mx e = true);
+      first [exact Zeqb_iff | exact (mel_enc_ok mn mx cfg) | exact (pos_dists_Forall ds dpos) | reflexivity].
+  Qed.
+
   Theorem lookback_melody_roundtrip es ins labs :
     forallb (mel_event_ok mn mx) es = true ->
     encode (lb_mel mn mx ds bits) es = Some (ins, labs) ->
